@@ -356,7 +356,11 @@ def patched(st, record):
     saved = (cli_mod.py7zr, cli_mod.getpass, cli_mod.multivolumefile, core.Worker)
     cli_mod.py7zr = fake
     cli_mod.getpass = types.SimpleNamespace(getpass=getpass_, GetPassWarning=GetPassWarning)
-    cli_mod.multivolumefile = types.SimpleNamespace(MultiVolume=lambda *a, **k: FakeMV(record, *a, **k))
+    class MV(FakeMV):
+        def __init__(self, *a, **k):
+            FakeMV.__init__(self, record, *a, **k)
+
+    cli_mod.multivolumefile = types.SimpleNamespace(MultiVolume=MV)
     core.Worker = fake_worker
     try:
         yield
@@ -1263,6 +1267,7 @@ def explore(ctx, rep, rng, tier):
 
 def run(ctx):
     rep, tier = ctx["rep"], ctx["tier"]
+    rep.extra["model_available"] = ctx["model"] is not None
     rng = random.Random(ctx["seed"])
     rep.cov["rule"] = ("volume sizes: every string of length <= 4 (quick) / 5 (thorough) over {0,1,9,b,k,m,g,B,K,M,G,x,P,-,.,space,newline,"
                        "U+212A,U+FF11,U+0663} plus all digit x unit pairs and digit strings around the 4300-digit limit (non-trivial = passes the "
